@@ -34,6 +34,10 @@ class Unserializable:
     pass
 
 
+from autobahn.wamp.serializer import CBORSerializer, MsgPackSerializer  # noqa: E402
+WIRES = [JsonSerializer(), MsgPackSerializer(), CBORSerializer()]
+
+
 class Transport:
     """recording ITransport with the serialization behaviour of the real transports (errors classified)"""
 
@@ -126,6 +130,7 @@ class Recorder:
         self.tr = Transport(self, max_size=2000)
         self.flags = dict(faithful=True, valuesOk=True, argsOk=True)
         self.requests = {}        # rid -> dict(kind, future, expect...)
+        self.nrx = 0
         self.futs = {}            # rid -> the future / Deferred returned by the API call
         self.cancelled = set()    # call request ids whose result the caller cancelled while pending
         self.handlers = {}        # hid -> fn
@@ -165,6 +170,9 @@ class Recorder:
                         self.bad("faithful", "receive_progress %r" % getattr(msg, "receive_progress", None))
                     if k == "publish" and bool(msg.acknowledge) != bool(exp.get("ack")):
                         self.bad("faithful", "acknowledge %r" % msg.acknowledge)
+                    for attr, want in (exp.get("opts") or {}).items():
+                        if getattr(msg, attr) != want:
+                            self.bad("faithful", "%s option %s on the wire %r, given %r" % (k, attr, getattr(msg, attr), want))
                 elif k in ("subscribe", "register"):
                     if uri != exp["uri"]:
                         self.bad("faithful", "%s uri %r != %r" % (k, uri, exp["uri"]))
@@ -411,12 +419,18 @@ def scenario(rng, profile):
     def rx(msg, m, beh="value"):
         R.beh = beh
         try:
+            # as on a wire: what the router sends is serialised and parsed again before the session sees it
+            wire = WIRES[R.nrx % len(WIRES)]
+            R.nrx += 1
+            msg = wire.unserialize(wire.serialize(msg)[0])[0]
             s.onMessage(msg)
         except Exception as e:  # noqa
             R.re["exc"] = type(e).__name__
         R.step(dict(ev="rx", m=m, u=dict(R.user), beh=beh))
 
     def api(name, fn, **kw):
+        if name in ("call", "publish"):
+            kw.setdefault("bad", "")
         try:
             fn()
         except Exception as e:  # noqa
@@ -460,7 +474,13 @@ def scenario(rng, profile):
             prog = rng.random() < 0.4
             det = rng.random() < 0.3
             to = rng.choice([None, 10])
-            R.expect_sent = dict(uri="com.myapp.proc1", args=args, kwargs=kwargs, progress=prog, timeout=to)
+            bad = ""
+            if R.tr.max_size and rng.random() < 0.12:
+                bad = rng.choice(["ser", "size"])
+                args = [Unserializable()] if bad == "ser" else ["x" * (R.tr.max_size + 500)]
+                R.expect_sent = None
+            else:
+                R.expect_sent = dict(uri="com.myapp.proc1", args=args, kwargs=kwargs, progress=prog, timeout=to)
 
             def on_progress(*a, **kw):
                 R.re["prog"].append(R.current_progress_call)
@@ -479,18 +499,26 @@ def scenario(rng, profile):
                 rid = R.last_req()
                 R.requests[rid] = dict(kind="call", details=det, retry=(rng.random() < 0.2))
                 R.track(fut, rid)
-            api("call", f, progress=prog)
+            api("call", f, progress=prog, bad=bad)
         elif choice == "publish":
             ack = rng.random() < 0.6
-            R.expect_sent = dict(uri="com.myapp.topic1", args=args, kwargs=kwargs, ack=ack)
+            po = dict(exclude_me=rng.choice([None, None, True, False]), exclude=rng.choice([None, None, [7], [7, 8]]),
+                      eligible=rng.choice([None, None, [9]]), retain=rng.choice([None, None, True, False]))
+            bad = ""
+            if R.tr.max_size and rng.random() < 0.12:
+                bad = rng.choice(["ser", "size"])
+                args = [Unserializable()] if bad == "ser" else ["x" * (R.tr.max_size + 500)]
+                R.expect_sent = None
+            else:
+                R.expect_sent = dict(uri="com.myapp.topic1", args=args, kwargs=kwargs, ack=ack, opts=po)
 
             def f():
-                fut = s.publish("com.myapp.topic1", *args, options=PublishOptions(acknowledge=ack), **kwargs)
+                fut = s.publish("com.myapp.topic1", *args, options=PublishOptions(acknowledge=ack, **po), **kwargs)
                 rid = R.last_req()
                 if ack:
                     R.requests[rid] = dict(kind="publish")
                     R.track(fut, rid)
-            api("publish", f, ack=ack)
+            api("publish", f, ack=ack, bad=bad)
         elif choice == "subscribe":
             hid = rng.choice([1, 2, 3])
             topic = rng.choice(["com.myapp.topic1", "com.myapp.topic2"])
